@@ -81,6 +81,34 @@ func FromHistory(c *runner.Ctx, r *runner.Rand, h *genfrag.History) []Struct {
 		}
 		return init
 	}})
+	// the same init with header times and durations that do not fit 32 bits
+	// while the boxes keep the version the constructors gave them (public fields)
+	big := []uint64{1 << 32, 1<<32 + 12345, 1<<40 + 7, 0xfffffffffffffff0}[r.Intn(4)]
+	which := r.Intn(4)
+	out = append(out, Struct{Kind: "api/InitSegment-large-times", Desc: desc + fmt.Sprintf(", value %#x in field set %d", big, which), New: func() Encodable {
+		var init *mp4.InitSegment
+		if pi := c.Guard(func() { init, _, _ = genfrag.BuildInit(h) }); pi != nil || init == nil || init.Moov == nil || init.Moov.Mvhd == nil {
+			return nil
+		}
+		for _, t := range init.Moov.Traks {
+			if t.Tkhd == nil || t.Mdia == nil || t.Mdia.Mdhd == nil {
+				return nil
+			}
+			switch which {
+			case 0:
+				t.Tkhd.Duration = big
+			case 1:
+				t.Tkhd.CreationTime, t.Tkhd.ModificationTime = big, big+1
+			case 2:
+				t.Mdia.Mdhd.Duration = big
+			default:
+				init.Moov.Mvhd.Duration = big
+				t.Tkhd.Duration = big
+				t.Mdia.Mdhd.CreationTime = big
+			}
+		}
+		return init
+	}})
 	newFrag := func(fs *genfrag.FragmentSpec, optimize bool) *mp4.Fragment {
 		var f *mp4.Fragment
 		var err error
